@@ -5,12 +5,23 @@ props=[json.loads(l) for l in open('/verif/properties.jsonl')]
 reg=json.load(open('/verif/harness/registry.json'))
 claims=json.load(open('/verif/tools/claims.json'))
 have={r['property'] for r in reg}
+GEN_NOTE='bounded: data bounds, loop unwinding, move bound, scenario parameters and policies/windows are listed per harness in the evidence file; schedules outside the policies, windows and symbolic-schedule harnesses are outside the claim; byte contents of texts are abstracted (display width, length, newlines, cursor-up count, identity, order marks). trusted: gosmt (SSA semantics, heap/channel/select/WaitGroup/context/ticker models, happens-before race detection along explored schedules), library contracts listed in the evidence, z3/cvc5'
+
 checks=[]; na=[]
 for p in props:
     pid=p['id']
     c=claims.get(pid,{})
     if pid in have and c.get('claim',True):
         facets=sorted({r['name'] for r in reg if r['property']==pid})
+        mine=[r for r in reg if r['property']==pid]
+        tierA=sorted({r['name'] for r in mine if not r['func'].startswith('vs') and not r.get('symbolic') and not r.get('sym_to')})
+        symb=sorted({r['name'] for r in mine if not r['func'].startswith('vs') and (r.get('symbolic') or r.get('sym_to'))})
+        tierB=sorted({r['name'] for r in mine if r['func'].startswith('vs')})
+        parts=['bounded symbolic execution of the real code of /repo (go/ssa -> SMT-LIB, z3/cvc5); every obligation (assert, panic, deadlock, unwind, leak, race, wrap) is a solver query over all symbolic inputs within the stated bounds, every counterexample is replayed natively before it is reported.']
+        if tierA: parts.append('One-operation harnesses from an arbitrary symbolic state (data exhaustively within bounds): '+', '.join(tierA)+'.')
+        if symb: parts.append('Concurrent component harnesses in which the scheduler choice of every move (or of every move in the critical window) is a solver variable: '+', '.join(symb)+'.')
+        if tierB: parts.append('Closed scenarios over the whole goroutine system of the library with concrete parameters, run under seven deterministic fair scheduling policies in the quick tier (one schedule each; the solver decides the data obligations and the deadlock/leak/race obligations of that schedule) and additionally with solver-chosen schedules inside sliding windows in the thorough tier: '+', '.join(tierB)+'.')
+        gen_text=' '.join(parts)
         checks.append({
           "property_id":pid,
           "quick_cmd":"/verif/bin/vcheck %s --tier quick"%pid,
@@ -18,8 +29,8 @@ for p in props:
           "evidence_file":"/verif/evidence/%s.json"%pid,
           "replay_cmd_template":"/verif/bin/vcheck replay {path}",
           "engine":"gosmt",
-          "level_claimed":{"category":"model_checking","text":c.get('text','bounded symbolic execution of the real functions (go/ssa -> SMT): every obligation is an SMT query over all inputs within the stated bounds; harnesses: '+', '.join(facets)),"design_ref":c.get('design_ref','DESIGN.md section 5')},
-          "level_note":c.get('note','trusted: gosmt (SSA semantics, heap and concurrency model), library contracts listed in the evidence file, z3/cvc5; bounds per harness are in the evidence file'),
+          "level_claimed":{"category":"model_checking","text":gen_text,"design_ref":c.get('design_ref','DESIGN.md section 5')},
+          "level_note":GEN_NOTE if True else c.get('note','trusted: gosmt (SSA semantics, heap and concurrency model), library contracts listed in the evidence file, z3/cvc5; bounds per harness are in the evidence file'),
           "technique":c.get('technique','SMT-based bounded symbolic execution of Go SSA (solver verdict per obligation, counterexamples replayed natively)')})
     else:
         na.append({"property_id":pid,"reason":c.get('na_reason','no check registered yet for this property (machinery under construction; see DESIGN.md section 9)')})
